@@ -18,6 +18,11 @@ MODEL_EXTRA = ["e", "f", "g"]
 COLL_KEYS = ["m", "n", "k", "q", "r", "s"]
 NPRIORS = 14
 SETITEM_TRANSFERS = False  # /repo since 6df133a: no id transfer to an object handed in by the caller (Model.v: setitem_transfers)
+# the three proposed repairs of the remaining findings (proposed_fixes/C13-delattr-guard, -tuple-prior-frozen,
+# -cache-modification-count); not applied to /repo: flip together with the constants of the same meaning in coq/C13/Model.v
+DELATTR_GUARDED = False    # Model.v: delattr_guarded
+TUPLES_FROZEN = False      # Model.v: tuples_frozen
+CACHE_COUNTS = False       # Model.v: cache_counts_modifications (needs the other two)
 DERIVE_THAWS = False       # /repo since b8214a7: prior passing unfreezes its copy, not self (Model.v: derive_thaws)
 
 
@@ -292,6 +297,7 @@ class Mirror:
         for _, v in self.objs[o].attrs:
             if self.is_pm(v) and v[1] != o:
                 self.freeze(v[1])
+        self.set_tuples(o, True)
         self.objs[o].frozen = True
 
     def unfreeze(self, o):
@@ -301,6 +307,19 @@ class Mirror:
         for _, v in self.objs[o].attrs:
             if self.is_pm(v) and v[1] != o:
                 self.unfreeze(v[1])
+        self.set_tuples(o, False)
+
+    def set_tuples(self, o, flag):
+        if TUPLES_FROZEN:
+            for _, v in self.objs[o].attrs:
+                if v[0] == "r" and self.objs[v[1]].kind == "tuple":
+                    self.objs[v[1]].frozen = flag
+
+    def guarded(self, ob, deleting=False):
+        """does an assert_not_frozen wrapper sit in front of this setattr / delattr?"""
+        if ob.kind == "tuple":
+            return TUPLES_FROZEN
+        return DELATTR_GUARDED if deleting else True
 
     def derive_thaw(self, o, depth=0):
         """what mapper_from_prior_arguments does to the frozen flags of the pinned code"""
@@ -365,7 +384,7 @@ class Mirror:
             self.unfreeze(o)
             return {"ok": None}, []
         if k == "failwalk":
-            return {"exc": "TypeError"}, ["failing-walk"]
+            return {"exc": "TypeError"}, []           # harmless since 5afd9f1 (the corpus history pins it)
         if k == "derive":
             labels = ["derive-thaws-frozen"] if DERIVE_THAWS and self.derive_would_thaw(o) else []
             if DERIVE_THAWS:
@@ -389,12 +408,14 @@ class Mirror:
                     self.rewritten.add(op[3][1])
             k, op = "set", ["set", o, str(op[2]), op[3]]
         if k in ("set", "append"):
-            if ob.kind != "tuple" and ob.frozen:
+            if ob.frozen and self.guarded(ob):
                 return {"exc": "AssertionError"}, ["rejected"]
             v = op[3] if k == "set" else op[2]
             if k == "set" and ob.kind == "model" and self.is_pm(v) and self.objs[v[1]].frozen:
                 return {"exc": "AssertionError"}, []
             t = self.set_target(o, op[2]) if k == "set" else o
+            if t != o and self.objs[t].frozen and self.guarded(self.objs[t]):
+                return {"exc": "AssertionError"}, ["rejected"]          # the redirect hits the frozen TuplePrior
             labels = self.mod_labels(t) + setitem_labels
             if k == "set":
                 self.objs[t].set(op[2], v)
@@ -403,6 +424,8 @@ class Mirror:
                 ob.nitems += 1
             return {"ok": None}, labels
         if k == "del":
+            if ob.frozen and self.guarded(ob, deleting=True):
+                return {"exc": "AssertionError"}, ["rejected"]
             if ob.get(op[2]) is None:
                 return {"exc": "AttributeError"}, []
             labels = self.mod_labels(o, deleting=True)
@@ -415,6 +438,8 @@ class Mirror:
     def mod_labels(self, t, deleting=False):
         tob = self.objs[t]
         labels = []
+        if CACHE_COUNTS:            # every accepted modification drops every cache: nothing can be stale
+            return labels
         if deleting and tob.kind != "tuple" and tob.frozen:
             labels.append("delattr-on-frozen")
             self.stale.setdefault(t, set()).add("delattr-on-frozen")
